@@ -23,73 +23,73 @@ CLAIMS = {
          "DESIGN.md 4 (E2), 5 C04",
          "Necessary-and-structural: on every CFG path no error is returned after the frame's snapshot without RevertToSnapshot on that path; transfer/CreateAccount only after the snapshot; join-point errors surface; caller-side instructions are reference clones.",
          "does not decide that StateDB.RevertToSnapshot itself restores every effect kind (external). " + TRUST),
- "C05": ("CFG ordering/dominance rules + resolved who-may-call + AST argument provenance on (*EVM).Call; who-may-write on the join-point enable flag",
+ "C05": ("CFG ordering/dominance rules + resolved who-may-call + argument provenance on (*EVM).Call (resolved syntax, value temporaries seen through; Error text on SSA values incl. helpers); who-may-write on the join-point enable flag; may-alias freshness of the value argument at the call/create instructions",
          "DESIGN.md 5 C05",
-         "Structural: exactly one pre and one post join-point site, guarded by not-precompile/code-non-empty/IsExecuteJP on all paths, ordered around interpreter.Run on all paths, with arguments built from exactly this call's parameters and call-tree node; the enable flag is written only by the constructor and by host-facing one-assignment setters that the fork itself never calls.",
+         "Structural: exactly one pre and one post join-point site, guarded by not-precompile/code-non-empty/IsExecuteJP on all paths, ordered around interpreter.Run on all paths, with arguments built from exactly this call's parameters and call-tree node; the enable flag is written only by the constructor and by host-facing one-assignment setters that the fork itself never calls; the value handed to a frame is a fresh big number or a shared constant, never interpreter scratch state.",
          "behaviour of aspect-core with the message and a host toggling IsExecuteJP between the sites are outside the analysed program. " + TRUST),
- "C06": ("path-sensitive CFG reaching-definition and gas-forfeit rules on (*EVM).Call and the other frame entry points",
+ "C06": ("path-sensitive CFG reaching-definition and gas-forfeit rules on (*EVM).Call and the other frame entry points (literals carried through local aliases, tag-less and tagged switches); out-of-gas normalisation as an SSA dominance rule on values (comparison may live in a helper)",
          "DESIGN.md 5 C06",
          "Structural: callee gas is defined only by the pre join point's leftover, post join point receives the callee's leftover, returned gas is the post join point's leftover or zero; non-revert errors return zero gas on every path; out-of-gas normalisation present on both error paths; the frame the interpreter runs is constructed after the pre-call join point; a failed join point always surfaces as the frame's own error (so the forfeit rule applies to it).",
          "'never returns more gas than given' depends on the number reported by the Aspect runtime (external) and is not decided. " + TRUST),
  "C07": ("CFG pairing rule + who-may-call/who-may-write inventory (SSA stores) + SSA def-use patterns on CallTree.add/exit",
          "DESIGN.md 5 C07",
-         "Structural necessary conditions of a well-formed tree: SaveCall/deferred ExitCall pairing on every path of Call/create; only add/exit mutate the tree; add/exit maintain count, index, parent, children, lookup and cursor as required; on every path the lookup table is replaced iff the counter is reset (indices stay dense over repeated top-level calls on one EVM).",
+         "Structural necessary conditions of a well-formed tree: SaveCall/deferred ExitCall pairing on every path of Call/create; only add/exit mutate the tree; add/exit maintain count, index, parent, children, lookup and cursor as required; on every path the lookup table is replaced iff the counter is reset (indices stay dense over repeated top-level calls on one EVM); add/exit store only to their own part of the tree (children only grow by append).",
          "single goroutine per EVM; host code calling exported SaveCall/ExitCall is outside the repository. " + TRUST),
- "C13": ("wrapper-summary check of Tracer.TransferWithRecord + who-may-call over all fork packages + SSA must-call chain saveBalance -> JournalChanges -> append with argument provenance and the per-call-list read/write-set rule; write-once node tables; single-writer rule on the recorder and its call tree",
+ "C13": ("wrapper-summary check of Tracer.TransferWithRecord + who-may-call over all fork packages + SSA must-call chain saveBalance -> JournalChanges -> append with argument provenance and the per-call-list read/write-set rule; write-once node tables; single-writer rule on the recorder and its call tree; monotone call counter",
          "DESIGN.md 5 C13",
          "Structural: the wrapper brackets exactly one host transfer with before/after balance records of sender then recipient, read in place, under one call index; only the wrapper invokes a TransferFunc; it is called exactly from Call and create with the frame's parameters; every observation reaches the per-call list on every path, whose only suppression is the per-call repeat test; an account's root record is never replaced and the recorder/call tree never re-created.",
          "equality with the true balances assumes a truthful StateDB.GetBalance. " + TRUST),
- "C18": ("SSA isomorphism of tracer packages and interpreter loop against the reference; embedding with dead-at-zero-Aspect-state insertions; CFG capture-balance rule",
+ "C18": ("SSA isomorphism of tracer packages and interpreter loop against the reference; embedding with dead-at-zero-Aspect-state insertions; clone rule on the gas functions (per-step cost); CFG capture-balance rule",
          "DESIGN.md 5 C18",
          "Sufficient structural condition: inherited tracers and the event-emitting code are clones of the reference or embed it with insertions that cannot execute without Aspect events; start/enter events are closed on every path; fork-only JSON fields are omitted when empty.",
          "JS tracers are absent from the fork; output when Aspects are involved is C19. " + TRUST),
- "C16": ("map-order lint over every range-on-map site (clone sites by reference agreement, fork-only sites by body classification / collect-then-sort idiom); SSA use inventory of shared big-number constants; SSA global-write and receiver-write inventories; constructor freshness; fresh, never pooled frame memory",
+ "C16": ("map-order lint over every range-on-map site (clone sites by reference agreement, fork-only sites by body classification / collect-then-sort idiom); SSA use inventory of shared big-number constants; SSA global-write and receiver-write inventories; constructor freshness; fresh, never pooled frame memory; read-only rule for fork-added package-level slices/maps; read-only captures of returned (table) closures; clone rule on the per-EVM table copy",
          "DESIGN.md 5 C16",
          "Structural necessary conditions of determinism: no Go map iteration order reaches a result in fork-only/modified code; shared package-level 256-bit constants are never written or leaked; nothing outside package initialisation writes a package-level variable; each EVM gets a recorder allocated in its own constructor call and nothing else writes the recorder fields.",
          "does not decide determinism of StateDB, the Aspect runtime or crypto (external), nor value-level equality of two runs. " + TRUST),
- "C17": ("ownership argument: SSA shared-constant / global-write / receiver-write inventories, clone rule on the table/pool/abort code, type facts on the abort flag and the stack pool",
+ "C17": ("ownership argument: SSA shared-constant / global-write / receiver-write inventories, clone rule on the table/pool/abort code, type facts on the abort flag and the stack pool; read-only captures of returned (table) closures; read-only fork-added package-level slices/maps",
          "DESIGN.md 5 C17",
          "Structural sufficient condition for absence of fork-introduced data races between EVM instances: fork code shares no mutable package-level state, shared precompile instances never write their receiver, the code touching the shared tables, pool and abort flag is the reference's, the abort flag is a sync/atomic.Bool accessed only through its methods.",
          "does not decide races inside StateDB or the Aspect runtime, nor how promptly a cancelled execution stops (timing). " + TRUST),
  "C12": ("SSA effect summaries of the eight journal instructions resolved from the table; entry-block pop count vs. declared stack effect; constant-fee analysis of the slot's gas functions; justified-refusal entailment on the operand decoder; table-slot and constructor-clone queries",
          "DESIGN.md 5 C12",
-         "Structural sufficient condition: each journal instruction only pops its declared operands (on every path), reads memory/state through read-only accessors, writes only the recorder and the scratch hasher, returns nil data, never moves pc; its fee is one positive compile-time constant independent of all parameters and equal across the eight slots, installed in the base table every fork inherits; malformed operands end in an ordinary error, never STOP/REVERT tokens, and the operand decoder refuses only operands whose data would not fit the memory.",
+         "Structural sufficient condition: each journal instruction only pops its declared operands (on every path), reads memory/state through read-only accessors, writes only the recorder and the scratch hasher, returns nil data, never moves pc; its fee is one positive compile-time constant independent of all parameters and equal across the eight slots, installed in the base table every fork inherits; malformed operands end in an ordinary error, never STOP/REVERT tokens, and the operand decoder refuses only operands whose data would not fit the memory; linking a key under its parent cannot fail, so a well-formed key journal is not refused because of earlier registrations.",
          "the relational statement (program with journal opcode vs. pops) is implied, not executed; that the recorder is side-effect free is C01 R1.4a. " + TRUST),
- "C10": ("SSA provenance of the account and call-index arguments from the journal instructions down to the per-call map update; who-may-write; read/write-set rule and must-call chain on the per-call list; CFG pairing rule of the call-tree cursor; purity rule on the flat-index look-up; StateDB receiver provenance; single-writer rule on the recorder; clone rule on Contract/delegation code",
+ "C10": ("SSA provenance of the account and call-index arguments from the journal instructions down to the per-call map update; who-may-write; read/write-set rule and must-call chain on the per-call list; CFG pairing rule of the call-tree cursor; purity rule on the flat-index look-up; look-up provenance of the journaled record; monotone call counter; vocabulary rule on the repeat test; StateDB receiver provenance; single-writer rule on the recorder; clone rule on Contract/delegation code",
          "DESIGN.md 5 C10",
-         "Structural necessary conditions: every journal instruction files under scope.Contract.Address() (the same value it reads storage with) into the interpreter's own recorder; the recorder stamps CurrentCallIndex() = index of the call-tree cursor at that moment; the index reaches the per-call map key unchanged; the delegation semantics of Contract.Address are the reference's; the per-call list depends on nothing but that call's previous list and the new value, and every successful journal reaches it; the cursor is opened before any early return and closed exactly once; findKey is a pure function of all four coordinates; storage is read through the EVM's current StateDB and the recorder is never replaced.",
-         "the byte comparison inside the collapse of repeats and all history-dependent clauses are not decided. " + TRUST),
- "C08": ("CFG pairing rule (SaveCall before every return, one deferred ExitCall); resolved-AST provenance of the SaveCall/ExitCall arguments; SSA borrowed-reference retention analysis with interprocedural result-aliases-parameter summaries (interface calls resolved to all fork implementations, captured variables through closure bindings); must-store path rule on CallTree.add/exit; calls through function values resolved by signature; checked premise for frame-owned return data (fresh, never pooled Memory)",
+         "Structural necessary conditions: every journal instruction files under scope.Contract.Address() (the same value it reads storage with) into the interpreter's own recorder; the recorder stamps CurrentCallIndex() = index of the call-tree cursor at that moment; the index reaches the per-call map key unchanged; the delegation semantics of Contract.Address are the reference's; the per-call list depends on nothing but that call's previous list and the new value, and every successful journal reaches it; the cursor is opened before any early return and closed exactly once; findKey is a pure function of all four coordinates; storage is read through the EVM's current StateDB and the recorder is never replaced; the record journaled is findKey of this call's own coordinates; call indices are never handed out twice; a value is dropped only under presence/length tests of this call's list and bytes.Equal(last, new).",
+         "bytes.Equal itself and all history-dependent clauses are not decided. " + TRUST),
+ "C08": ("CFG pairing rule (SaveCall before every return, one deferred ExitCall); resolved-AST provenance of the SaveCall/ExitCall arguments; SSA borrowed-reference retention analysis with interprocedural result-aliases-parameter summaries (interface calls resolved to all fork implementations, captured variables through closure bindings); must-store path rule on CallTree.add/exit; calls through function values resolved by signature; checked premise for frame-owned return data (fresh, never pooled Memory); must-call rule on the creation entry points",
          "DESIGN.md 5 C08",
-         "Structural necessary conditions: every attempt is recorded on entry before any refusal check, with arguments built from exactly this call's parameters, and closed with the function's own results; no reference that may alias live interpreter memory or the operand stack is stored into recorder-owned memory without a copy, along any static call chain including results of precompile Run methods; every argument of SaveCall/ExitCall is stored into the node on every recording path (no outcome recorded only for some error classes); return data of a finished frame is treated as owned only under the checked premise that NewMemory is fresh on every path and no Memory is pooled.",
+         "Structural necessary conditions: every attempt is recorded on entry before any refusal check, with arguments built from exactly this call's parameters, and closed with the function's own results; no reference that may alias live interpreter memory or the operand stack is stored into recorder-owned memory without a copy, along any static call chain including results of precompile Run methods; every argument of SaveCall/ExitCall is stored into the node on every recording path (no outcome recorded only for some error classes); return data of a finished frame is treated as owned only under the checked premise that NewMemory is fresh on every path and no Memory is pooled; Create/Create2 reach create (where the attempt is recorded) on every path.",
          "does not decide sibling order beyond append-on-entry, nor equality of recorded values with an independent log; return data produced through the opcode table's function values (opReturn/opRevert copies) is taken as owned by the caller. " + TRUST),
- "C15": ("clone rule on the EIP-1153 instructions, the gas/memory helpers and the vm/runtime entry points (transaction-boundary Prepare); table-literal facts for slots 0x5c-0x5e, the Cancun constructor and the table switch; SSA sibling agreement between opMcopy, memoryMcopy, gasMcopy and Memory.Copy",
+ "C15": ("clone rule on the EIP-1153 instructions, the gas/memory helpers and the vm/runtime entry points (transaction-boundary Prepare); table-literal facts for slots 0x5c-0x5e, the Cancun constructor; SSA dominance rule that IsCancun is decided before every other fork rule and selects the Cancun table; SSA sibling agreement between opMcopy, memoryMcopy, gasMcopy and Memory.Copy",
          "DESIGN.md 5 C15",
          "Structural necessary conditions of the two EIPs: transient-storage instructions and their gas are the reference's at the renumbered bytes; MCOPY's operands, memory-size function (max of both starts + length), gas function (per-word copy gas on the length operand + expansion) and the overlap-safe, zero-length-safe copy agree position by position; the three bytes are installed only in the Cancun table, which is selected first.",
          "memmove semantics of the builtin copy, the StateDB's transient journal, and equality with an executable EIP-5656 model are not decided; no newer reference implementation is on disk. " + TRUST),
- "C03": ("go/ssa bounds, division and accessor-precondition obligations over all fork-only code and fork insertions, discharged by guard entailment (Fourier-Motzkin, wrap-around aware); nil-context dominance rule; nil-field forward must-analysis (fields some fork construction leaves unset); no-panic scan; code-hash/code agreement at every frame construction; CFG pairing rule for bookkeeping",
+ "C03": ("go/ssa bounds, division and accessor-precondition obligations over all fork-only code and fork insertions, discharged by guard entailment (Fourier-Motzkin, wrap-around aware); nil-context dominance rule; nil-field forward must-analysis (fields some fork construction leaves unset); no-panic scan; code-hash/code agreement at every frame construction; no-unsafe rule; whole-body analysis of inherited functions with unreviewed differences; CFG pairing rule for bookkeeping",
          "DESIGN.md 4 (E3), 5 C03",
          "Sufficient structural condition for absence of Go run-time panics in fork code: every index/slice/make/division/GetCopy precondition is entailed by dominating guards under machine arithmetic; nil-able context fields are tested before use; every dereference of a field that a fork construction leaves nil (hasher, call-tree cursor, parent link, change list …) is protected on every path by a test or a non-nil assignment; no explicit panic or unchecked type assertion; inherited code is the reference's; the call-tree cursor is closed by a deferred exit on every path; code hash and code of every frame are read for the same address (the JUMPDEST cache is keyed by hash).",
          "panics inside StateDB, host callbacks, the Aspect runtime and dependencies are not decided; Memory.Copy's bounds rest on the stated interpreter-contract assumption, which is granted only under len >= 1 (who-may-call checked); nil-ness of values returned by calls (as opposed to loaded from fields) and stack exhaustion are not modelled. " + TRUST),
- "C09": ("bounds obligations of the two change-journal instructions; single-recorder-call-after-validation rule; positional-bytes lint with positive control; SSA provenance of slot, account and offset operands; linear post-conditions by guard entailment (packed-layout relations hi+offset=32, hi-lo=width; len(recorded string)=decoded length on every path); affine slot-progression analysis of the long-string loop; lossless 256->64-bit operand readings; StateDB receiver provenance; justified-refusal entailment (dual of the bounds rule)",
+ "C09": ("bounds obligations of the two change-journal instructions; single-recorder-call-after-validation rule; positional-bytes lint with positive control; SSA provenance of slot, account and offset operands; linear post-conditions by guard entailment (packed-layout relations hi+offset=32, hi-lo=width; len(recorded string)=decoded length on every path); affine slot-progression analysis of the long-string loop; lossless 256->64-bit operand readings; StateDB receiver provenance; justified-refusal entailment (dual of the bounds rule); abstract interpretation of the string-header decoder over a bit-slice domain; look-up provenance of the journaled record",
          "DESIGN.md 5 C09",
-         "Structural necessary conditions only: invalid (offset, width) and undecodable strings never reach a slice expression; nothing is recorded before validation completes; no zero-stripping byte conversion where position matters; the word journaled is read at the slot/account it is filed under and sliced by the offset operand handed to the recorder, with upper bound 32-offset and length = width entailed; the recorded string has exactly the decoded length on every path; the long-string loop reads keccak(slot)+0,+1,… (first read at offset 0, step 1); offset and width are read without dropping upper bits; storage is read through the EVM's current StateDB; every refusal of the value journal is entailed to concern an invalid (offset, width).",
-         "does NOT decide the bit-level validity test of the string header (which of the in-place / out-of-place encodings is accepted), the mask constant, nor equality of the recorded bytes with an independent decoder (value-level). " + TRUST),
- "C14": ("table query for addresses 100-102; bounds obligations of loadParamBytes and the three Run methods; nil-context dominance; host-call dominance of success returns and data dependence of the output; provenance of the write address; fresh-clone / no-receiver-write rule for context-carrying precompiles; justified-refusal entailment on the ABI decoder; constant RequiredGas",
+         "Structural necessary conditions only: invalid (offset, width) and undecodable strings never reach a slice expression; nothing is recorded before validation completes; no zero-stripping byte conversion where position matters; the word journaled is read at the slot/account it is filed under and sliced by the offset operand handed to the recorder, with upper bound 32-offset and length = width entailed; the recorded string has exactly the decoded length on every path; the long-string loop reads keccak(slot)+0,+1,… (first read at offset 0, step 1); offset and width are read without dropping upper bits; storage is read through the EVM's current StateDB; every refusal of the value journal is entailed to concern an invalid (offset, width); the decoded string length is (W>>1)&m with m inside the length byte for in-place strings and W>>1 for out-of-place ones, the flag being bit 0; the record journaled is the one found under this call's own coordinates.",
+         "does NOT decide the validity test of the string header (which combinations of flag and length are rejected — seeded change C09b is not reported), nor equality of the recorded bytes with an independent decoder (value-level). " + TRUST),
+ "C14": ("table query for addresses 100-102; bounds obligations of loadParamBytes and the three Run methods; nil-context dominance; host-call dominance of success returns and data dependence of the output; provenance of the write address; fresh-clone / no-receiver-write rule for context-carrying precompiles; justified-refusal entailment on the ABI decoder; no-unsafe rule; constant RequiredGas",
          "DESIGN.md 5 C14",
          "Structural necessary conditions: the three precompiles are installed from Berlin on only; no payload can make their decoding slice out of range (uint64 wrap respected); a success return implies the Aspect runtime was consulted and readers return data derived from its answer; a context write is filed under the caller address captured by EVM.Call or refused, and that context never reaches the instance shared through the package-level table; the fee is one constant; the ABI decoder refuses only payloads whose head/data would not fit the input.",
          "does not decide that well-formed ABI payloads decode to the right bytes, nor the exact-length policy of the hash payload, nor the Aspect runtime's behaviour. " + TRUST),
- "C19": ("bounds obligations over fork-only and fork-inserted tracer code plus one inherited function whose callee postcondition the fork changed; inductive field invariant len(callstack) >= 1; nil-field must-analysis; may-alias freshness of trace addresses passed down the flattening recursion; frame-scoped ownership of the Aspect-execution marker; sub-trace count/emission agreement; loop-variable address lint; sibling agreement of the result-discard guard",
+ "C19": ("bounds obligations over fork-only and fork-inserted tracer code plus one inherited function whose callee postcondition the fork changed; inductive field invariant len(callstack) >= 1; nil-field must-analysis; may-alias freshness of trace addresses passed down the flattening recursion; frame-scoped ownership of the Aspect-execution marker; sub-trace count/emission agreement on SSA (natural loops, dominance, element-of-collection tracing, complementary decisions); loop-variable address lint; sibling agreement of the result-discard guard as truth tables over atomic comparisons (SSA); exit-closes-the-last-entered entailment; no whole-frame overwrite / append-only JoinPoints",
          "DESIGN.md 5 C19",
-         "Structural necessary condition 'finishes without panic' for the call tracers: every index/slice in fork tracer code is entailed by dominating guards given the inductively checked invariant that the call stack keeps its root frame; trace addresses stored in emitted frames share no storage with the parent's or a sibling's; set/reset state of Aspect executions lives in the frame record, not in the tracer; Subtraces counts exactly the collections emitted; no frame is built from the address of a range variable; both flattening functions discard results under the same guard over the input record.",
-         "does NOT decide exactly-once emission, matching of Aspect exits to open frames, sub-trace counts or numeric trace-address uniqueness (properties of event histories). Two known-finding constructs (flatCallTracer.CaptureExit) is listed in known_findings.json. " + TRUST),
+         "Structural necessary condition 'finishes without panic' for the call tracers: every index/slice in fork tracer code is entailed by dominating guards given the inductively checked invariant that the call stack keeps its root frame; trace addresses stored in emitted frames share no storage with the parent's or a sibling's; set/reset state of Aspect executions lives in the frame record, not in the tracer; Subtraces counts exactly the collections emitted; no frame is built from the address of a range variable; both flattening functions discard results under the same guard over the input record; an Aspect exit completes the execution entered last; frames on the tracer stack are never overwritten wholesale.",
+         "does NOT decide exactly-once emission over whole event histories or numeric trace-address uniqueness (properties of event histories). Two known-finding constructs (flatCallTracer.CaptureExit) is listed in known_findings.json. " + TRUST),
  "C20": ("resource obligations (loop trip bounds, make/copy/padding-helper sizes) over everything statically reachable in the fork from the journal instructions and the Artela precompiles, discharged by guard entailment against constants and lengths of existing buffers; table rule: a fork slot declaring a memorySize has a gas function that reads it; clone rule on all metering functions, RequiredGas, and the interpreter loop",
          "DESIGN.md 5 C20",
          "Structural sufficient condition: in code reachable from fork instructions/precompiles every loop bound and every allocation/copy size is a constant or entailed to be at most the length of a buffer that already exists; no fork instruction makes the interpreter resize memory without its gas function reading the size; the fee itself is C12.",
          "constants of proportionality and work inside host callbacks/StateDB are not decided. One known finding (long-string loop of opReferenceChangeJournal) is listed in known_findings.json. " + TRUST),
- "C11": ("SSA path enumeration over saveKey/saveChange (refused means unmodified) and AddChild (what is indexed by name is what is returned and flat-indexed); E3 lossless-conversion obligations on offsets; who-may-write on the key tables; write-once rule (dominating absence test) on every node-table update; lossless-reading rule on offsets incl. helpers; parameter-provenance rule on the parent look-up",
+ "C11": ("SSA path enumeration over saveKey/saveChange (refused means unmodified) and AddChild (what is indexed by name is what is returned and flat-indexed); E3 lossless-conversion obligations on offsets; who-may-write on the key tables; write-once rule (dominating absence test) on every node-table update; lossless-reading rule on offsets incl. helpers; parameter-provenance rule on the parent look-up; must-call rules on the registration path; AddChild-never-fails obligation; per-call-list read/write-set rule",
          "DESIGN.md 5 C11, 12",
-         "Structural necessary conditions only: a refused registration or journal modifies nothing; offsets beyond 31 are refused, never truncated onto another offset; on every path of AddChild the node indexed by name is the node returned (the only one that reaches the flat slot/offset/type index); the tables have no other writers; a registered node is never replaced in any table; the parent of a nested registration is looked up under the parent's own coordinates only.",
+         "Structural necessary conditions only: a refused registration or journal modifies nothing; offsets beyond 31 are refused, never truncated onto another offset; on every path of AddChild the node indexed by name is the node returned (the only one that reaches the flat slot/offset/type index); the tables have no other writers; a registered node is never replaced in any table; the parent of a nested registration is looked up under the parent's own coordinates only; every successful registration passes AddChild and addKey; linking a key cannot fail.",
          "does NOT decide idempotence, exact child sets or agreement of the two look-up paths after arbitrary histories (needs a reference model and exploration). One known finding (AddChild path) is listed in known_findings.json. " + TRUST),
 }
 
